@@ -108,7 +108,6 @@ static int prepare_peer_socket(int fd)
 {
 	if (set_fd_non_blocking(fd) < 0) {
 		log_err("Could not set socket to nonblocking '%s'!\n", strerror(errno));
-		close(fd);
 		return -1;
 	}
 
@@ -129,7 +128,6 @@ static int prepare_peer_socket(int fd)
 		}
 		if (configure_keepalive(fd) < 0) {
 			log_err("Could not configure keepalive '%s'!\n", strerror(errno));
-			close(fd);
 			return -1;
 		}
 	}
